@@ -51,8 +51,10 @@ class FakeService:
     """Stands in for twisted.application.internet.ClientService inside the harness process."""
     instances = []
 
-    def __init__(self, ep, factory, **kw):
+    def __init__(self, ep, factory, *args, **kw):
         self.factory = factory
+        self.ctor_args = args      # what the client asked of ClientService beyond endpoint and factory
+        self.ctor_kw = kw
         self.started = False
         self.stopping = None
         self.when_connected = []
@@ -563,3 +565,63 @@ class World:
         np = [dict(r) for r in db.execute("SELECT n.name as name, s.side as side, s.claimed as claimed FROM nameplates n, nameplate_sides s WHERE s.nameplates_id = n.id").fetchall()]
         mb = [dict(r) for r in db.execute("SELECT mailbox_id, side, opened, mood FROM mailbox_sides").fetchall()]
         return dict(nameplate_sides=np, mailbox_sides=mb)
+
+
+def long_outage(n_failures, seed=0):
+    """The REAL twisted ClientService, constructed with exactly the extra arguments the client gives it (captured from
+    RendezvousConnector's constructor call), against an endpoint that refuses `n_failures` attempts in a row after one
+    good connection.  Returns after how many refused attempts no further attempt was scheduled (None = the service
+    kept trying throughout), the number of attempts made, and any error logged on the way."""
+    from twisted.application import internet
+    from twisted.internet import protocol
+    from twisted.python import log as tlog
+    from twisted.internet.error import ConnectionRefusedError as Refused, ConnectionDone
+    with World(seed=seed) as W:
+        cl = W.add_client(delegated=True)
+        args, kw = cl.svc.ctor_args, dict(cl.svc.ctor_kw)
+    kw.pop("clock", None)
+    clock = Clock()
+    state = dict(attempts=0, up=True, protos=[])
+
+    class EP:
+        def connect(self, factory):
+            state["attempts"] += 1
+            if state["up"]:
+                p = factory.buildProtocol(None)
+                state["protos"].append(p)
+                return defer.succeed(p)
+            return defer.fail(Refused())
+
+    class P(protocol.Protocol):
+        pass
+
+    f = protocol.Factory.forProtocol(P)
+    errors = []
+    obs = lambda ev: errors.append(str(ev.get("failure") or ev.get("log_failure"))) if ev.get("isError") else None
+    tlog.addObserver(obs)
+    try:
+        svc = internet.ClientService(EP(), f, *args, clock=clock, **kw)
+        svc.startService()
+        clock.advance(0)
+        state["up"] = False
+        wrapped = state["protos"][0]
+        wrapped.connectionLost(failure.Failure(ConnectionDone()))
+        stuck_after = None
+        for i in range(n_failures + 1):
+            calls = [c for c in clock.getDelayedCalls() if c.active()]
+            if not calls:
+                stuck_after = state["attempts"] - 1
+                break
+            try:
+                clock.advance(max(0.0, min(c.getTime() for c in calls) - clock.seconds()))
+            except Exception as e:    # whatever escapes the service's own timer is the end of its retry loop
+                errors.append(repr(e))
+            if state["attempts"] - 1 >= n_failures:
+                break
+        try:
+            svc.stopService()
+        except Exception:
+            pass
+    finally:
+        tlog.removeObserver(obs)
+    return stuck_after, state["attempts"], errors
